@@ -108,3 +108,40 @@ class VModel(core.Model):
         self.systems.add_system(_Work('work', self))
         for cid in control['collectors']:
             self.systems.add_system(_Ident(cid, self))
+
+
+# ---------------------------------------------------------------------------------------------------------------------
+# C16: grid-search fixture.  TABLE / COUNTS are module globals: set by the harness before each call, inherited by forked workers.
+# ---------------------------------------------------------------------------------------------------------------------
+TABLE = {}        # key(params) -> list of scores, one per repetition
+COUNTS = {}       # key(params) -> constructions so far in this process
+EXPECT_T = [None]
+
+
+def pkey(params):
+    return _json.dumps({k: v for k, v in params.items() if k not in ('records', 'score')}, sort_keys=True, default=str)
+
+
+class _Stopper(core.System):
+    def execute(self):
+        if self.model.systems.timestep == self.model.stop:
+            self.model.complete()
+
+
+class SModel(core.Model):
+    __slots__ = ['params', 'rep', 'stop']
+
+    def __init__(self, stop=0, **params):
+        super().__init__()
+        self.stop = stop
+        self.params = dict(params, stop=stop)
+        k = pkey(self.params)
+        self.rep = COUNTS.get(k, 0)
+        COUNTS[k] = self.rep + 1
+        self.systems.add_system(_Stopper('stopper', self))
+
+
+def table_score(model):
+    if EXPECT_T[0] is not None and model.systems.timestep != EXPECT_T[0]:
+        raise AssertionError(f'model handed to the score function is at timestep {model.systems.timestep}, expected {EXPECT_T[0]}')
+    return TABLE[pkey(model.params)][model.rep]
